@@ -15,7 +15,7 @@ from typing import Dict, List, Optional, Set
 from .. import flow
 from ..cfg import cfg_of
 from ..model import AnchorError, Class, Func, UNKNOWN, UnknownIdiom, dotted, func_owner_class, short, walk_no_nested
-from .c16_helpers import NONE, Lin, LinExec, PathFacts
+from .c16_helpers import NONE, Lin, LinExec, PathFacts, seek_position
 from .common import implied, is_self_attr, single, walk_self
 
 MOD = 'falcon.routing.static'
@@ -202,16 +202,53 @@ def r3_range(run):
     fh, st, rng = params
     cfg = cfg_of(f, p)
     run.use_cfg(cfg)
-    ex = LinExec(p, f, cfg, opaque_params=[fh])
-    paths = ex.run()
     size = Lin.atom('%s.st_size' % st)
+    ex = LinExec(p, f, cfg, opaque_params=[fh], file_sizes={fh: size})
+    paths = ex.run()
     one = Lin.const(1)
     n_ranged = 0
     n_raise = 0
+
+    def nonpos(path, x, strict=False):
+        """x <= 0 (strict: x < 0) from the path conditions, from st_size >= 0
+        (assumption), or because x is max(..) of such terms."""
+        if path.implies_lt0(x) or (not strict and path.implies_le0(x)):
+            return True
+        if x == -size:
+            return (not strict) or path.excludes_zero(size)
+        if not x.t or set(x.t) == {''}:
+            c = x.t.get('', 0)
+            return c < 0 or (c == 0 and not strict)
+        at = x.single_atom()
+        if at in ex.minmax and ex.minmax[at][0] == 'max':
+            return all(nonpos(path, y, strict) for y in ex.minmax[at][1])
+        return False
+
     for path in paths:
         out = path.outcome
         where = '%s:%s' % (f.file, getattr(out[-1], 'lineno', f.lineno)) if out[0] != 'fall' else f.loc()
         wit = path.raw_conds
+        # frozen look-alike: a seek relative to the end of the file.  BytesIO
+        # clamps an offset before the first byte to 0; a real file raises
+        # OSError(EINVAL), which the caller's `except IOError` turns into 404.
+        # Obligation on every path (whatever its outcome): -size <= offset <= 0,
+        # by a max(.., -size) clamp or a guard on the path.
+        seeks = [ev for ev in path.events if ev[0] == 'call' and ev[5] == ('obj', fh) and ev[2] == 'seek']
+        seek_unclamped = False
+        for ev in seeks:
+            _pos, off = seek_position(ev[3], size, ev[4], '_set_range')
+            if off is None:
+                continue
+            lo = ex.le_by_minmax(-size, off) or path.implies_le0(-size - off)
+            run.check(lo, 'a seek relative to the end of the file never reaches before the first byte (offset >= -size, clamped or guarded): '
+                      'a relative seek before the start of a real file raises', f, ev[4], where=f.loc(ev[4]),
+                      witness=wit + ['offset=%s' % off.key()],
+                      runtime_witness='Range: bytes=-999999 on a small on-disk file: OSError(EINVAL) from seek -> 404 instead of 206 with the whole file '
+                                      '(io.BytesIO clamps and hides it)')
+            run.check(nonpos(path, off), 'a seek relative to the end of the file never positions beyond the end (offset <= 0)', f,
+                      '%s [beyond]' % short(ev[4]), where=f.loc(ev[4]), witness=wit + ['offset=%s' % off.key()],
+                      runtime_witness='a suffix range served from beyond the end of the file: empty body with a non-zero Content-Length')
+            seek_unclamped = seek_unclamped or not lo
         if out[0] == 'fall':
             run.fail('_set_range falls off its end without a result', f, 'fall-through', witness=wit)
             continue
@@ -231,6 +268,11 @@ def r3_range(run):
         if not (isinstance(val, tuple) and val[0] == 'tuple' and len(val[1]) == 3):
             raise UnknownIdiom('_set_range: return shape %s' % short(node))
         stream, length, crange = val[1]
+        if seek_unclamped and not (isinstance(length, Lin) and (crange is NONE or (isinstance(crange, tuple) and crange[0] == 'tuple'
+                                                                                    and all(isinstance(x, Lin) for x in crange[1])))):
+            # the result is computed from something the evaluator cannot read (tell(), ...)
+            # after a seek that may raise: the unclamped seek is already reported
+            continue
         if not isinstance(length, Lin):
             raise UnknownIdiom('_set_range: length expression in %s is outside the linear evaluator' % short(node))
         if crange is NONE:
@@ -250,36 +292,14 @@ def r3_range(run):
                   f, cons + ' [bound]', where=where, witness=wit + ['bound=%s length=%s' % (getattr(bound, 'key', lambda: bound)(), getattr(length, 'key', lambda: length)())])
         run.check(isinstance(length, Lin) and (e - s + one) == length, 'end - start + 1 == length on the return path', f, cons + ' [length]', where=where,
                   witness=wit + ['start=%s end=%s length=%s' % (s.key(), e.key(), length.key() if isinstance(length, Lin) else length)], runtime_witness=rw)
-        seeks = [ev for ev in path.events if ev[0] == 'call' and ev[1] == fh and ev[2] == 'seek']
-        pos = None
-        if seeks:
-            a = seeks[-1][3]
-            if len(a) == 1 and isinstance(a[0], Lin):
-                pos = a[0]
-            elif len(a) == 2 and isinstance(a[0], Lin) and a[1] == ('seek_end',):
-                pos = size + a[0]
-            elif len(a) == 2 and isinstance(a[0], Lin) and isinstance(a[1], Lin) and a[1] == Lin.const(0):
-                pos = a[0]
-            elif len(a) == 2 and isinstance(a[0], Lin) and isinstance(a[1], Lin) and a[1] == Lin.const(2):
-                pos = size + a[0]
-            else:
-                raise UnknownIdiom('_set_range: seek arguments %s' % short(seeks[-1][4]))
+        pos = seek_position(seeks[-1][3], size, seeks[-1][4], '_set_range')[0] if seeks else None
         run.check(pos is not None and pos == s, 'the handle is positioned at the reported first byte', f, cons + ' [seek]', where=where,
                   witness=wit + ['seek position=%s start=%s' % (pos.key() if pos is not None else None, s.key())], runtime_witness=rw)
-        if seeks and len(seeks[-1][3]) == 2 and (seeks[-1][3][1] == ('seek_end',) or seeks[-1][3][1] == Lin.const(2)):
-            off = seeks[-1][3][0]
-            run.check(ex.le_by_minmax(-size, off), 'a suffix range never reaches before the first byte (offset from the end >= -size)', f,
-                      cons + ' [suffix]', where=where, witness=wit + ['offset=%s' % off.key()],
-                      runtime_witness='Range: bytes=-999999 on a small file: seek before the start of the file / negative first-byte-pos')
         run.check(ex.le_by_minmax(e, size - one), 'the reported last byte is at most size - 1', f, cons + ' [end]', where=where,
                   witness=wit + ['end=%s' % e.key()], runtime_witness='Range: bytes=0-999999 on a small file reports an end beyond the file')
         # first byte inside the file: start < size from a guard, or (suffix range)
         # start - size == max(a, b, ..) with every argument negative on this path
-        inside = path.implies_lt0(s - size)
-        if not inside:
-            at = (s - size).single_atom()
-            if at in ex.minmax and ex.minmax[at][0] == 'max':
-                inside = all(path.implies_lt0(x) or (x == -size and path.excludes_zero(size)) for x in ex.minmax[at][1])
+        inside = nonpos(path, s - size, strict=True)
         run.check(inside, 'a ranged response starts inside the file (otherwise 416)', f, cons + ' [start]', where=where,
                   witness=wit + ['start=%s, conditions: %s' % (s.key(), [(k, l.key()) for k, l in path.conds])],
                   runtime_witness='Range: bytes=<size>- answered 206 with an empty or negative length instead of 416')
